@@ -508,6 +508,16 @@ func (l *ledger) release(t, item string) bool {
 //	kind: "create", "update" or "stop"; ctr: the original container (create: full; else id only
 //	matters); reqRes: the runtime's requested resources (update only); resp: per plugin in
 //	invocation order.
+//
+// markedForRemoval is the reference reading of the documented removal marker: exactly one leading '-'.
+// (The project's own helper is deliberately not used by the oracles.)
+func markedForRemoval(key string) (string, bool) {
+	if strings.HasPrefix(key, "-") {
+		return key[1:], true
+	}
+	return key, false
+}
+
 func Evaluate(kind string, ctr *api.Container, reqRes *api.LinuxResources, resp []PResp) *Expect {
 	e := &Expect{Verdict: MustSucceed, Upd: map[string]ResFlat{}, BlankOK: map[string]bool{}}
 	led := &ledger{owner: map[string]map[string]int{}, tainted: map[string]map[string]bool{}}
@@ -573,7 +583,7 @@ func Evaluate(kind string, ctr *api.Container, reqRes *api.LinuxResources, resp 
 				sets := map[string]string{}
 				marks := map[string]bool{}
 				for k, v := range a.Annotations {
-					if key, m := api.IsMarkedForRemoval(k); m {
+					if key, m := markedForRemoval(k); m {
 						marks[key] = true
 					} else {
 						sets[k] = v
@@ -598,7 +608,7 @@ func Evaluate(kind string, ctr *api.Container, reqRes *api.LinuxResources, resp 
 				var order []string
 				marks := map[string]bool{}
 				for _, m := range a.Mounts {
-					if key, mk := m.IsMarkedForRemoval(); mk {
+					if key, mk := markedForRemoval(m.Destination); mk {
 						marks[key] = true
 					} else {
 						if _, dup := sets[m.Destination]; dup {
@@ -627,7 +637,7 @@ func Evaluate(kind string, ctr *api.Container, reqRes *api.LinuxResources, resp 
 				var order []string
 				marks := map[string]bool{}
 				for _, kv := range a.Env {
-					if key, mk := kv.IsMarkedForRemoval(); mk {
+					if key, mk := markedForRemoval(kv.Key); mk {
 						marks[key] = true
 					} else {
 						if _, dup := sets[kv.Key]; dup {
@@ -682,7 +692,7 @@ func Evaluate(kind string, ctr *api.Container, reqRes *api.LinuxResources, resp 
 				var order []string
 				marks := map[string]bool{}
 				for _, d := range a.Linux.Devices {
-					if key, mk := d.IsMarkedForRemoval(); mk {
+					if key, mk := markedForRemoval(d.Path); mk {
 						marks[key] = true
 					} else {
 						if _, dup := sets[d.Path]; dup {
